@@ -8,29 +8,41 @@ under a scripted stream == target.sample() under the same stream (values and req
 """
 import math
 import numpy as np
-from vfw.core import CellResult, close
+from vfw.core import CellResult, HarnessError, close
 from vfw import refs
 from vfw.stream import Stream
 
 PROPERTY = "C10"
 RULE = ("cells = (pair family x parametrisation x dimension/geometry x interface) for supported pairs, "
-        "(unsupported dependence x interface), (target family) for Direct; every cell runs the full product of "
-        "Gamma(shape, rate) in {0.5,1,3}x{1e-4,1,2} x residual kinds {generic.., zero} inside; the Gamma request is "
-        "captured and its textbook log-density is compared with target.logd on the whole t-grid; a cell is "
-        "non-trivial when the sampler accepted the target and issued a Gamma request (supported), or when it "
-        "either refused or was judged on the grid (unsupported)")
+        "(member of the refusal alphabet x interface), (one re-targeted sampler object x interface), (target family) for "
+        "Direct.  A supported cell runs inside the full product Gamma(shape, rate) in {0.5,1,3}x{1e-4,1,2} x mean/data "
+        "catalogue {generic dyadic.., zero residual, all-zero data, data with some exact zeros, integer-dtype counts, "
+        "all-zero mean, mean and data all-zero}; the Gamma request is captured and its textbook log-density is compared "
+        "with target.logd on the whole t-grid (the densely written textbook update rank/2+a, r'P1r/2+b is computed "
+        "alongside as a second, informational oracle).  A refusal cell offers the posterior (n in {2,3} x 3 priors) through "
+        "every acceptance route - stateless interface: constructor+step; stateful interface: constructor, target setter on "
+        "a fresh sampler, target setter on a sampler that already drew for a supported posterior, HybridGibbs sampling "
+        "strategy, find_valid_samplers listing - oracle: several occurrences / non-scalar Gamma must be refused by the "
+        "route itself (stateful interface), any other unsupported dependence is refused by the route or by the first step, "
+        "or the captured Gamma is exact on the grid.  A supported cell is non-trivial when the sampler accepted the target "
+        "and issued a Gamma request; a refusal cell when the same route accepts the supported control posterior")
 BOUND = {
-    "quick": "Gaussian dims 1..4 x {cov=1/s, cov=1.0/s, prec=s, prec=s*ones}; GMRF 1-D N=2..5 + 2-D 2x2,3x3 x bc "
-             "{zero,neumann,periodic} x order 0..2; 9 Gamma(shape,rate) x 2 residual kinds (1 data vector); t-grid "
-             "{0.1,0.5,1,2,7,30}; 17 unsupported dependences; 12 Direct target families; both interfaces",
-    "thorough": "Gaussian dims 1..10; GMRF 1-D N=2..10 + 2-D 2x2..5x5; 9 Gamma(shape,rate) x 4 residual kinds "
-                "(3 data vectors + zero residual); otherwise as quick",
+    "quick": "Gaussian dims 1..4 x {cov=1/s, cov=1.0/s, prec=s, prec=s*ones, scalar mean with cov / prec}; GMRF 1-D "
+             "N=2..5 + 2-D 2x2,3x3 x bc {zero,neumann,periodic} x order 0..2; 9 Gamma(shape,rate) x 7 mean/data kinds "
+             "(1 generic vector, zero residual, 5 zero/integer kinds); t-grid {0.1,0.5,1,2,7,30}; refusal alphabet: 19 "
+             "unsupported dependences / priors + 9 several-occurrence likelihoods (mean with cov, prec, sqrtcov, sqrtprec; "
+             "GMRF mean with prec, zero and periodic bc; mean forms s*v, sqrt(s)*v, v/s) on both interfaces + (LMRF "
+             "location with scale) on ConjugateApprox, x 5 routes on the stateful interface; re-targeting: all 24 ordered "
+             "triples of 4 posteriors on one object; 12 Direct target families",
+    "thorough": "Gaussian dims 1..10; GMRF 1-D N=2..10 + 2-D 2x2..5x5; 9 Gamma(shape,rate) x 9 mean/data kinds "
+                "(3 generic vectors, zero residual, 5 zero/integer kinds); otherwise as quick",
 }
 ASSUMPTIONS = [
     "trusted base: numpy.random.gamma(shape, scale) draws from the Gamma law with exactly these parameters; "
     "scipy.stats.gamma.logpdf is the textbook Gamma log-density",
     "the target's own log-density (target.logd) is the comparator demanded by the statement; whether that density "
-    "is itself the documented one is C04/C20, not judged here",
+    "is itself the documented one is C04/C20, not judged here (where the densely written textbook update differs from "
+    "the captured request although the request is proportional to target.logd, this is only counted)",
     "GMRF with neumann/periodic bc uses a sqrt(eps)-regularised Cholesky factor: constancy demanded at 1e-5 "
     "(1e-9 elsewhere)",
     "cells whose own target.logd is non-finite on the grid (GMRF neumann order 2, some N) cannot be judged and are "
@@ -38,7 +50,17 @@ ASSUMPTIONS = [
     "GMRF neumann/periodic log-determinants come from ARPACK (eigsh) whose start vector depends on process-global "
     "state: which of the order-2 neumann sub-cases are non-finite may differ between runs (counts vary by a few, "
     "verdict signatures do not)",
-    "ConjugateApprox and the Regularized* pairs are outside the statement (approximate by design) and not judged",
+    "data catalogue: float64 and int64 arrays; lists, float32, masked arrays and non-finite data are not covered",
+    "stateless interface (cuqi.sampler.Conjugate): its only acceptance route is constructor followed by step (target is "
+    "a plain attribute, there is no validation stage or listing); 'rejected' = an exception before a draw is returned. "
+    "Its alphabet of unsupported functional forms is the recorded one (each accepted inexact form is a separate "
+    "recorded finding of one root cause) plus forms it samples exactly",
+    "stateful interface: 'accepted by a route' = the constructor / target assignment / HybridGibbs constructor returns "
+    "without an exception, or find_valid_samplers lists the sampler (the library's own definition of acceptance)",
+    "ConjugateApprox and the Regularized* pairs are approximate by design: their draws are not judged; ConjugateApprox "
+    "is only offered the several-occurrence member of its own pair (shared structural validation)",
+    "several-occurrence members whose second occurrence does not change the posterior (e.g. mean = v + 0*s) are not in "
+    "the alphabet",
     "values of t outside the grid (and, for the clipped dependences, outside the extended grid) are not covered",
 ]
 
@@ -51,9 +73,16 @@ GAUSS_PARAM = ["cov=1/s", "cov=1.0/s", "prec=s", "prec=s*ones", "cov=1/s,mean=sc
 BCS = ["zero", "neumann", "periodic"]
 DRAW = 1.25     # the scripted answer of every Gamma request
 
-UNSUPPORTED = ["cov=s", "cov=1/s**2", "prec=s**2", "prec=2*s", "sqrtprec=sqrt(s)", "cov=C/s", "cov=1/s+1",
-               "mean-and-cov", "mean-only", "gamma-2dim", "gamma-2dim-by-geometry", "prior-uniform", "prior-lognormal",
-               "prec=min(s,1000)", "cov=1/min(s,1000)", "gmrf-prec=d**2", "gmrf-prec=1/d", "prec=s+1"]
+# several occurrences of the hyper-parameter in the likelihood (the statement names them: rejected)
+SEVERAL = ["mean-and-cov", "mean-and-prec", "mean(sqrt)-and-cov", "mean(1/s)-and-prec", "mean-and-sqrtprec",
+           "mean-and-sqrtcov", "gmrf-mean-and-prec", "gmrf-mean(sqrt)-and-prec", "gmrf-periodic-mean-and-prec"]
+UNSUPPORTED = ["cov=s", "cov=1/s**2", "prec=s**2", "prec=2*s", "sqrtprec=sqrt(s)", "sqrtcov=1/sqrt(s)", "cov=C/s",
+               "cov=1/s+1", "mean-only", "gamma-2dim", "gamma-2dim-by-geometry", "prior-uniform", "prior-lognormal",
+               "prec=min(s,1000)", "cov=1/min(s,1000)", "gmrf-prec=d**2", "gmrf-prec=1/d", "gmrf-prec=2*d",
+               "prec=s+1"] + SEVERAL
+APPROX_ONLY = ["lmrf-location-and-scale"]     # (LMRF, Gamma): pair of ConjugateApprox (stateful interface only)
+# acceptance routes of the stateful interface
+ROUTES = ["ctor", "setter", "setter-used", "hybridgibbs", "find_valid_samplers"]
 
 DIRECT = ["gauss-scalar-cov", "gauss-full-cov", "gauss-prec", "gauss-sqrtcov", "gauss-sqrtprec", "gmrf-zero",
           "gamma", "gamma-vector", "laplace", "normal", "lognormal", "uniform-1d"]
@@ -79,7 +108,7 @@ def cells(tier, seed):
                 for N in n2:
                     yield {"kind": "gmrf", "iface": iface, "bc": bc, "order": order, "pd": 2, "N": N, "cat": k,
                            "nres": nres}
-        for case in UNSUPPORTED:
+        for case in UNSUPPORTED + (APPROX_ONLY if iface == "exp" else []):
             yield {"kind": "unsup", "iface": iface, "case": case, "cat": k}
         # E1 add-on: ONE sampler object re-targeted between posteriors of different structure (same dimension)
         for n in ((4,) if quick else (3, 4, 6)):
@@ -224,16 +253,48 @@ def _judge(cap_rec, tl, grid, tol):
 # ----------------------------------------------------------------------------------------
 # supported pairs
 # ----------------------------------------------------------------------------------------
+DATA_KINDS = ["data=0", "data=some0", "data=int", "mean=0", "mean=data=0"]
+_COUNTS = (0, 3, 0, 1, 2, 0, 0, 5, 1, 0, 4, 0)
+
+
 def _residuals(n, k, nres):
-    """(name, mean vector, data vector) - generic residuals from the catalogue, plus a zero residual."""
+    """(name, mean vector, data vector): generic residuals from the catalogue, a zero residual (data == mean), and the
+    data-representation catalogue: all-zero data, data with some exact zeros, integer-dtype counts (with zeros),
+    all-zero mean, mean and data both all-zero."""
     out = []
     for j in range(nres):
         m = refs.dyadic_vec(n, k + 2 * j + 1, scale=0.125)
         b = refs.dyadic_vec(n, k + 3 * j, scale=0.25)
         out.append(("generic%d" % j, m, b))
     m = refs.dyadic_vec(n, k + 1, scale=0.125)
+    b = refs.dyadic_vec(n, k, scale=0.25)
     out.append(("zero", m, m.copy()))
+    out.append(("data=0", m, np.zeros(n)))
+    b2 = b.copy()
+    b2[0::2] = 0.0
+    out.append(("data=some0", m, b2))
+    out.append(("data=int", m, np.array([_COUNTS[(i + k) % len(_COUNTS)] for i in range(n)], dtype=np.int64)))
+    out.append(("mean=0", np.zeros(n), b))
+    out.append(("mean=data=0", np.zeros(n), np.zeros(n)))
     return out
+
+
+def _ref_params(cell, mean, data, a, r):
+    """Textbook conjugate update written out densely: Gamma(rank(P1)/2 + a, 0.5 (y-m)^T P1 (y-m) + r) with P1 the
+    unit-hyper-parameter precision (identity for a Gaussian, D^T D from the index formulas of vfw.refs for a GMRF)."""
+    if cell["kind"] == "gauss":
+        n = cell["n"]
+        P1 = np.eye(n)
+    else:
+        D = refs.fd_ref(cell["N"], cell["bc"], cell["order"], cell["pd"])
+        P1 = D.T @ D
+        n = P1.shape[0]
+    rank = int(np.linalg.matrix_rank(P1))
+    m = np.asarray(mean, float).ravel()
+    if cell["kind"] == "gauss" and cell["par"].endswith(",mean=scalar"):
+        m = m[:1]           # the first entry, broadcast over the geometry
+    d = np.asarray(data, float).ravel() - m * np.ones(n)
+    return rank / 2.0 + a, 0.5 * float(d @ P1 @ d) + r
 
 
 def _gauss_target(par, n, mean, data, a, b):
@@ -284,7 +345,11 @@ def _eval_supported(cell, res):
     comp = IFACE_NAME[iface]
     accepted = judged = 0
     first = True
+    generic_failed = set()      # kinds of mismatch already seen with generic data: special data add no new signature
+    special_first = {}
+    generic_ok = 0
     for rname, mean, data in _residuals(n, cell["cat"], cell["nres"]):
+        special = rname in DATA_KINDS
         for (a, r) in GAMMA_PARAMS:
             res.state("%s|a=%g,r=%g" % (rname, a, r))
             try:
@@ -302,9 +367,15 @@ def _eval_supported(cell, res):
             try:
                 cap, outs, others = _run_conjugate(target, iface, extra=first)
                 res.transitions += len(outs)
+            except HarnessError as e:   # a random request that is not a Gamma request: not a draw of a Gamma law
+                res.fail("C10|%s|%s|other-randomness" % (comp, fam),
+                         "conjugate step issued a random request other than numpy.random.gamma: %s" % e)
+                continue
             except Exception as e:   # "when the conjugate sampler accepts a posterior": refusal is allowed
                 res.refused += 1
                 res.outcomes.add("sampler-refused:" + type(e).__name__)
+                if special:
+                    res.count("refused:" + rname)
                 continue
             first = False
             accepted += 1
@@ -324,19 +395,38 @@ def _eval_supported(cell, res):
                 judged += 1
                 ok, what, info = _judge(rec, tl, GRID, tol)
                 if not ok:
-                    res.fail("C10|%s|%s|%s" % (comp, fam, what),
+                    if not special:
+                        generic_failed.add(what)
+                    elif what not in generic_failed and generic_ok:
+                        special_first.setdefault(what, rname)   # the first special kind that shows this mismatch
+                    # the mean/data kind enters the signature only when generic data were judged and found exact
+                    facet = "%s,%s" % (what, special_first[what]) if (special and what in special_first) else what
+                    res.fail("C10|%s|%s|%s" % (comp, fam, facet),
                              "distribution drawn from, Gamma(shape=%r, rate=%r), is not proportional to the target's "
                              "own density in the hyper-parameter: log-ratio varies over t=%s by %s "
-                             "(prior Gamma(%g,%g), m=%d, residual=%s)" %
+                             "(prior Gamma(%g,%g), m=%d, mean/data kind=%s, data=%s)" %
                              (info.get("shape"), info.get("rate"), GRID, np.round(info.get("diff", 0), 6), a, r, n,
-                              rname),
+                              rname, np.asarray(data).tolist()),
                              focus={"draw_index": i, "prior": [a, r], "residual": rname}, **info)
                     break
+                if not special:
+                    generic_ok += 1
                 ov = np.asarray(out, float).ravel()
                 if ov.size != 1 or ov[0] != DRAW + 0.5 * i:
                     res.fail("C10|%s|%s|draw-not-returned" % (comp, fam),
                              "the value returned (%r) is not the Gamma draw (%r)" % (out, DRAW + 0.5 * i))
                     break
+            else:
+                # second, independent oracle (informational: the comparator of the statement is the target's own
+                # density): the textbook update Gamma(rank/2 + a, 0.5 r^T P1 r + b) written out densely
+                try:
+                    sh_ref, rt_ref = _ref_params(cell, mean, data, a, r)
+                    sh = float(np.ravel(cap[0]["shape_param"])[0])
+                    rt = 1.0 / float(np.ravel(cap[0]["scale"])[0])
+                    same = close(sh, sh_ref, rtol=1e-9) and close(rt, rt_ref, rtol=max(tol, 1e-9))
+                    res.count("textbook_params_agree" if same else "textbook_params_differ(target-density-not-textbook)")
+                except Exception:
+                    res.count("textbook_params_unavailable")
             res.outcomes.add("%s:%.6g:%.6g" % (fam, float(np.ravel(cap[0]["shape_param"])[0]),
                                                float(np.ravel(cap[0]["scale"])[0])))
             if res.sample is None:
@@ -351,14 +441,14 @@ def _eval_supported(cell, res):
 
 
 # ----------------------------------------------------------------------------------------
-# unsupported structures: raises, or is exact
+# the refusal alphabet: unsupported structures through every acceptance route
 # ----------------------------------------------------------------------------------------
-def _unsupported_target(case, n, k, a, b):
-    from cuqi.distribution import Gamma, Gaussian, GMRF, JointDistribution, Uniform, Lognormal
+def _unsupported_parts(case, n, k, a, b):
+    """(hyper-prior s, likelihood distribution y, data) of one member of the refusal alphabet."""
+    from cuqi.distribution import Gamma, Gaussian, GMRF, LMRF, Uniform, Lognormal
     mean = refs.dyadic_vec(n, k + 1, scale=0.125)
     data = refs.dyadic_vec(n, k, scale=0.25)
     s = Gamma(a, b, name="s")
-    var = "y"
     if case == "cov=s":
         y = Gaussian(mean, cov=lambda s: s, name="y")
     elif case == "cov=1/s**2":
@@ -371,13 +461,34 @@ def _unsupported_target(case, n, k, a, b):
         y = Gaussian(mean, prec=lambda s: s + 1, name="y")
     elif case == "sqrtprec=sqrt(s)":
         y = Gaussian(mean, sqrtprec=lambda s: np.sqrt(s) * np.eye(n), name="y")
+    elif case == "sqrtcov=1/sqrt(s)":
+        y = Gaussian(mean, sqrtcov=lambda s: np.eye(n) / np.sqrt(s), name="y")
     elif case == "cov=C/s":
         C = refs.spd_matrix(n, k)
         y = Gaussian(mean, cov=lambda s: C / s, name="y")
     elif case == "cov=1/s+1":
         y = Gaussian(mean, cov=lambda s: 1 / s + 1, name="y")
+    # -- several occurrences: in the mean AND in the (otherwise supported) covariance / precision / factor
     elif case == "mean-and-cov":
         y = Gaussian(lambda s: s * mean, cov=lambda s: 1 / s, geometry=n, name="y")
+    elif case == "mean-and-prec":
+        y = Gaussian(lambda s: s * mean, prec=lambda s: s, geometry=n, name="y")
+    elif case == "mean(sqrt)-and-cov":
+        y = Gaussian(lambda s: np.sqrt(s) * mean, cov=lambda s: 1 / s, geometry=n, name="y")
+    elif case == "mean(1/s)-and-prec":
+        y = Gaussian(lambda s: mean / s, prec=lambda s: s, geometry=n, name="y")
+    elif case == "mean-and-sqrtprec":
+        y = Gaussian(lambda s: s * mean, sqrtprec=lambda s: np.sqrt(s) * np.eye(n), geometry=n, name="y")
+    elif case == "mean-and-sqrtcov":
+        y = Gaussian(lambda s: s * mean, sqrtcov=lambda s: np.eye(n) / np.sqrt(s), geometry=n, name="y")
+    elif case == "gmrf-mean-and-prec":
+        y = GMRF(lambda s: s * mean, prec=lambda s: s, bc_type="zero", order=1, geometry=n, name="y")
+    elif case == "gmrf-mean(sqrt)-and-prec":
+        y = GMRF(lambda s: np.sqrt(s) * mean, prec=lambda s: s, bc_type="zero", order=2, geometry=n, name="y")
+    elif case == "gmrf-periodic-mean-and-prec":
+        y = GMRF(lambda s: s * mean, prec=lambda s: s, bc_type="periodic", order=1, geometry=n, name="y")
+    elif case == "lmrf-location-and-scale":
+        y = LMRF(lambda s: s * (mean - np.mean(mean)), scale=lambda s: 1 / s, geometry=n, name="y")
     elif case == "mean-only":
         y = Gaussian(lambda s: s * mean, cov=0.5, geometry=n, name="y")
     elif case == "gamma-2dim":
@@ -402,12 +513,104 @@ def _unsupported_target(case, n, k, a, b):
         y = GMRF(mean, prec=lambda s: s ** 2, bc_type="zero", order=1, geometry=n, name="y")
     elif case == "gmrf-prec=1/d":
         y = GMRF(mean, prec=lambda s: 1 / s, bc_type="zero", order=1, geometry=n, name="y")
+    elif case == "gmrf-prec=2*d":
+        y = GMRF(mean, prec=lambda s: 2 * s, bc_type="zero", order=1, geometry=n, name="y")
+    # -- supported controls (anti-vacuity of the routes; never judged as refusals)
+    elif case == "control:Conjugate":
+        y = Gaussian(mean, cov=lambda s: 1 / s, name="y")
+    elif case == "control:ConjugateApprox":
+        y = LMRF(0, scale=lambda s: 1 / s, geometry=n, name="y")
     else:
         raise ValueError(case)
-    return JointDistribution(s, y)(**{var: data})
+    return s, y, data
+
+
+def _unsupported_target(case, n, k, a, b):
+    from cuqi.distribution import JointDistribution
+    s, y, data = _unsupported_parts(case, n, k, a, b)
+    return JointDistribution(s, y)(y=data)
+
+
+def _exp_class(case):
+    import cuqi
+    return cuqi.experimental.mcmc.ConjugateApprox if case in APPROX_ONLY else cuqi.experimental.mcmc.Conjugate
+
+
+def _route_accept(route, cls, case, n, k, a, b):
+    """Offer the posterior to the sampler of the stateful interface through one acceptance route.
+    Returns the sampler object that now holds the target (True for a mere listing); library exceptions = refusal."""
+    import cuqi
+    from cuqi.distribution import Gaussian, JointDistribution
+    if route == "ctor":
+        return cls(_unsupported_target(case, n, k, a, b))
+    if route == "setter":
+        smp = cls()
+        smp.target = _unsupported_target(case, n, k, a, b)
+        return smp
+    if route == "setter-used":
+        # one live sampler object that has already drawn for a supported posterior (what HybridGibbs does every sweep)
+        nn = 2 if case.startswith("gamma-2dim") else n
+        smp = cls(_unsupported_target("control:" + cls.__name__, nn, k, a, b))
+        with Stream(gamma=lambda rec, i: DRAW).installed():
+            smp.step()
+        smp.target = _unsupported_target(case, n, k, a, b)
+        return smp
+    if route == "hybridgibbs":
+        s, y, data = _unsupported_parts(case, n, k, a, b)
+        m = len(data)
+        z = Gaussian(lambda y: y, 1.0, geometry=m, name="z")
+        joint = JointDistribution(s, y, z)(z=refs.dyadic_vec(m, k + 2, scale=0.25))
+        hg = cuqi.experimental.mcmc.HybridGibbs(joint, {"y": cuqi.experimental.mcmc.MH(), "s": cls()})
+        return hg.samplers["s"]
+    if route == "find_valid_samplers":
+        listed = cuqi.experimental.mcmc.find_valid_samplers(_unsupported_target(case, n, k, a, b))
+        if cls.__name__ not in listed:
+            raise ValueError("not listed by find_valid_samplers: %s" % listed)
+        return True
+    raise ValueError(route)
+
+
+def _unsup_signature(comp, case, iface):
+    # legacy: one root cause (no structural validation at all), recorded per unsupported dependence
+    # new interface: one signature per unsupported dependence that slips through; the clipped dependences share
+    # theirs (they coincide with the identity / reciprocal at the three points the validation probes)
+    return "C10|%s|accepts-unsupported|%s" % (comp, "agrees-at-probe-points" if ("min(" in case and iface != "legacy") else case)
+
+
+def _judge_accepted(res, comp, case, iface, cap, target, grid, where, focus):
+    """An unsupported structure was accepted and a draw was made: it must then be exact."""
+    if len(cap) != 1:
+        res.outcomes.add("accepted-without-gamma-request")
+        res.fail("C10|%s|unsupported|%s,no-gamma-request" % (comp, case),
+                 "unsupported structure accepted (%s) and sampled without a Gamma request" % where)
+        return None
+    try:
+        tl = _target_logd(target, grid)
+        res.transitions += len(grid)
+    except Exception as e:
+        res.outcomes.add("accepted-unjudgeable:" + type(e).__name__)
+        return None
+    if not np.all(np.isfinite(tl)):
+        res.outcomes.add("accepted-unjudgeable:nonfinite")
+        return None
+    res.evaluations += 1
+    ok, what, info = _judge(cap[0], tl, grid, 1e-9)
+    res.outcomes.add("accepted-" + ("exact" if ok else "inexact:" + what))
+    if not ok:
+        res.fail(_unsup_signature(comp, case, iface),
+                 "unsupported dependence %r accepted (%s) and sampled approximately: drew Gamma(shape=%r, "
+                 "rate=%r) but log-ratio to the target's own density varies over t=%s by %s" %
+                 (case, where, info.get("shape"), info.get("rate"), grid, np.round(info.get("diff", 0), 6)),
+                 focus=focus, **info)
+    if res.sample is None:
+        res.sample = {"case": case, "accepted": True, "route": where, "exact": ok,
+                      "captured_shape": cap[0]["shape_param"], "captured_scale": cap[0]["scale"]}
+    return ok
 
 
 def _eval_unsupported(cell, res):
+    if cell["iface"] == "exp":
+        return _eval_unsupported_exp(cell, res)
     iface, case, k = cell["iface"], cell["case"], cell["cat"]
     comp = IFACE_NAME[iface]
     grid = GRID_EXT if "min(" in case else GRID
@@ -435,40 +638,81 @@ def _eval_unsupported(cell, res):
                 res.fail("C10|%s|accepts-unsupported|%s" % (comp, case), "a posterior whose Gamma-distributed hyper-parameter has "
                          "dimension 2 was accepted (step returned %r)" % (outs[:1],), focus={"case": case, "n": n, "prior": [a, b]})
                 continue
-            if len(cap) != 1:
-                res.outcomes.add("accepted-without-gamma-request")
-                res.fail("C10|%s|unsupported|%s,no-gamma-request" % (comp, case),
-                         "unsupported structure accepted and sampled without a Gamma request")
-                continue
-            try:
-                tl = _target_logd(target, grid)
-                res.transitions += len(grid)
-            except Exception as e:
-                res.outcomes.add("accepted-unjudgeable:" + type(e).__name__)
-                continue
-            if not np.all(np.isfinite(tl)):
-                res.outcomes.add("accepted-unjudgeable:nonfinite")
-                continue
-            res.evaluations += 1
-            ok, what, info = _judge(cap[0], tl, grid, 1e-9)
-            res.outcomes.add("accepted-" + ("exact" if ok else "inexact:" + what))
-            if not ok:
-                # legacy: one root cause (no structural validation at all) -> one signature
-                # new interface: one signature per hole of the validation; the clipped dependences share theirs
-                # (they coincide with the identity / reciprocal at the three points the validation probes)
-                # one signature per unsupported dependence that slips through (the clipped dependences of the new
-                # interface share theirs: they coincide with the identity / reciprocal at the three probed points)
-                sig = "C10|%s|accepts-unsupported|%s" % (comp, "agrees-at-probe-points" if ("min(" in case and iface != "legacy") else case)
-                res.fail(sig, "unsupported dependence %r accepted and sampled approximately: drew Gamma(shape=%r, "
-                         "rate=%r) but log-ratio to the target's own density varies over t=%s by %s" %
-                         (case, info.get("shape"), info.get("rate"), grid, np.round(info.get("diff", 0), 6)),
-                         focus={"case": case, "n": n, "prior": [a, b]}, **info)
-            if res.sample is None:
-                res.sample = {"case": case, "accepted": True, "exact": ok, "captured_shape": cap[0]["shape_param"],
-                              "captured_scale": cap[0]["scale"]}
+            _judge_accepted(res, comp, case, iface, cap, target, grid, "constructor+step",
+                            {"case": case, "n": n, "prior": [a, b]})
     res.traces += 1
     if res.sample is None:
         res.sample = {"case": case, "accepted": False, "outcomes": sorted(res.outcomes)}
+    return res
+
+
+def _eval_unsupported_exp(cell, res):
+    """Stateful interface: every acceptance route x (n, prior).  Structures the statement names as rejected (several
+    occurrences, non-scalar Gamma) must be refused BY THE ROUTE; other unsupported dependences: refused by the route,
+    or refused by the first step, or sampled exactly."""
+    iface, case, k = cell["iface"], cell["case"], cell["cat"]
+    cls = _exp_class(case)
+    comp = "cuqi.experimental.mcmc." + cls.__name__
+    grid = GRID_EXT if "min(" in case else GRID
+    must_reject = case in SEVERAL or case in APPROX_ONLY or case.startswith("gamma-2dim")
+    # anti-vacuity: every route does accept the supported control of this sampler class
+    live_routes = 0
+    for route in ROUTES:
+        try:
+            _route_accept(route, cls, "control:" + cls.__name__, 3, k, 1.0, 1.0)
+            res.count("control-accepted@" + route)
+            live_routes += 1
+        except Exception as e:
+            res.count("control-refused@" + route)
+            res.outcomes.add("control-refused@%s:%s" % (route, type(e).__name__))
+        res.transitions += 1
+    for n in (2, 3):
+        for (a, b) in [(0.5, 1e-4), (1.0, 1.0), (3.0, 2.0)]:
+            for route in ROUTES:
+                res.state("n=%d,a=%g,b=%g,%s" % (n, a, b, route))
+                focus = {"case": case, "n": n, "prior": [a, b], "route": route}
+                res.transitions += 1
+                try:
+                    smp = _route_accept(route, cls, case, n, k, a, b)
+                except Exception as e:
+                    res.refused += 1
+                    res.outcomes.add("rejected@%s:%s" % (route, type(e).__name__))
+                    continue
+                if must_reject:
+                    res.outcomes.add("accepted@%s" % route)
+                    if case.startswith("gamma-2dim"):
+                        res.fail("C10|%s|accepts-unsupported|%s" % (comp, case), "a posterior whose Gamma-distributed "
+                                 "hyper-parameter has dimension 2 was accepted (route: %s)" % route, focus=focus)
+                    else:
+                        res.fail("C10|%s|accepts-several-occurrences|route=%s" % (comp, route),
+                                 "a posterior whose likelihood depends on the hyper-parameter in several of its parameters "
+                                 "(%s) was accepted instead of refused (route: %s)" % (case, route), focus=focus)
+                    continue
+                if smp is True:        # listing only; exactness is judged on the constructor route
+                    res.outcomes.add("listed")
+                    continue
+                cap = []
+                st = Stream(gamma=lambda rec, i: (cap.append(rec), DRAW)[1])
+                try:
+                    with st.installed():
+                        smp.step()
+                    res.transitions += 1
+                except HarnessError as e:
+                    res.fail("C10|%s|unsupported|%s,other-randomness" % (comp, case),
+                             "unsupported structure accepted (%s) and sampled with a non-Gamma random request: %s" % (route, e),
+                             focus=focus)
+                    continue
+                except Exception as e:
+                    res.refused += 1
+                    res.outcomes.add("rejected-at-step@%s:%s" % (route, type(e).__name__))
+                    continue
+                _judge_accepted(res, comp, case, iface, cap, smp.target, grid, route, focus)
+    res.traces += 1
+    res.count("live_routes", live_routes)
+    if live_routes == 0:
+        res.nontrivial = False
+    if res.sample is None:
+        res.sample = {"case": case, "accepted": False, "routes": ROUTES, "outcomes": sorted(res.outcomes)}
     return res
 
 
